@@ -4,35 +4,49 @@
 Require Import KV.Codec13.Model KV.Codec13.Inv KV.Codec13.StrProofs.
 Require Import Lia.
 
-(* x' extends x: same quoted-triple store, and every identifier the dictionary of x decodes keeps its term *)
+(* x' extends x: every identifier that denotes a term in x denotes the same term in x' *)
 Definition ext (x x' : db) : Prop :=
-  d_qts x' = d_qts x /\
+  (forall i s, decode_any x i = Some s -> decode_any x' i = Some s) /\
   (forall i s, dict_decode (d_dict x) i = Some s -> dict_decode (d_dict x') i = Some s).
 
 Lemma ext_refl : forall x, ext x x.
 Proof. intro x. split; auto. Qed.
 
 Lemma ext_trans : forall x y z, ext x y -> ext y z -> ext x z.
-Proof. intros x y z [Q1 D1] [Q2 D2]. split; [congruence | auto]. Qed.
+Proof. intros x y z [Q1 D1] [Q2 D2]. split; auto. Qed.
 
-Lemma decode_term_ext : forall x x', ext x x' -> forall f i s,
-  decode_term f x i = Some s -> decode_term f x' i = Some s.
+Lemma decode_any_ext : forall x x' i s, ext x x' -> decode_any x i = Some s -> decode_any x' i = Some s.
+Proof. intros x x' i s [E _] H. apply E. exact H. Qed.
+
+(* the structural reason: both stores only grow *)
+Definition grows (x x' : db) : Prop :=
+  (forall i c, assoc_n i (i2c (d_qts x)) = Some c -> assoc_n i (i2c (d_qts x')) = Some c) /\
+  (length (i2c (d_qts x)) <= length (i2c (d_qts x')))%nat /\
+  (forall i s, dict_decode (d_dict x) i = Some s -> dict_decode (d_dict x') i = Some s).
+
+Lemma decode_term_grows : forall x x', grows x x' -> forall f f' i s, (f <= f')%nat ->
+  decode_term f x i = Some s -> decode_term f' x' i = Some s.
 Proof.
-  intros x x' [Q D] f. induction f as [|f IH]; intros i s H.
-  - cbn [decode_term] in *. destruct (is_quoted i); [discriminate | apply D; exact H].
-  - cbn [decode_term] in *. destruct (is_quoted i); [|apply D; exact H].
-    rewrite Q. destruct (assoc_n i (i2c (d_qts x))) as [[[a b] c]|]; [|discriminate].
+  intros x x' (Q & _ & D) f. induction f as [|f IH]; intros f' i s Hf H.
+  - cbn [decode_term] in H. destruct (is_quoted i) eqn:Eq; [discriminate|].
+    destruct f'; cbn [decode_term]; rewrite Eq; apply D; exact H.
+  - destruct f' as [|f']; [lia|]. cbn [decode_term] in *. destruct (is_quoted i); [|apply D; exact H].
+    destruct (assoc_n i (i2c (d_qts x))) as [[[a b] c]|] eqn:Ei; [|discriminate]. rewrite (Q _ _ Ei).
     destruct (decode_term f x a) as [sa|] eqn:Ea; [|discriminate].
     destruct (decode_term f x b) as [sb|] eqn:Eb; [|discriminate].
     destruct (decode_term f x c) as [sc|] eqn:Ec; [|discriminate].
-    rewrite (IH _ _ Ea), (IH _ _ Eb), (IH _ _ Ec). exact H.
+    rewrite (IH f' _ _ ltac:(lia) Ea), (IH f' _ _ ltac:(lia) Eb), (IH f' _ _ ltac:(lia) Ec). exact H.
 Qed.
 
-Lemma decode_any_ext : forall x x' i s, ext x x' -> decode_any x i = Some s -> decode_any x' i = Some s.
+Lemma ext_of_grows : forall x x', grows x x' -> ext x x'.
 Proof.
-  intros x x' i s E H. unfold decode_any in *. destruct E as [Q D]. rewrite Q.
-  apply (decode_term_ext x x' (conj Q D)). exact H.
+  intros x x' G. split; [|apply G]. intros i s H. unfold decode_any in *.
+  apply (decode_term_grows x x' G (S (length (i2c (d_qts x)))) _ i s); [|exact H]. destruct G as (_ & L & _). lia.
 Qed.
+
+Lemma grows_same_qts : forall x x', d_qts x' = d_qts x ->
+  (forall i s, dict_decode (d_dict x) i = Some s -> dict_decode (d_dict x') i = Some s) -> grows x x'.
+Proof. intros x x' Q D. unfold grows. rewrite Q. auto. Qed.
 
 Lemma quad_ok_ext : forall x x' q, ext x x' -> quad_ok x q -> quad_ok x' q /\ den_quad x' q = den_quad x q.
 Proof.
@@ -67,32 +81,39 @@ Lemma db_encode_spec : forall x s x' i,
   db_encode x s = (x', i) -> dict_ok (d_dict x) -> next_id (d_dict x) < QBIT ->
   dict_ok (d_dict x') /\ ext x x' /\ d_quads x' = d_quads x /\ d_pref x' = d_pref x /\
   (decode_any x' i = Some s /\ dict_decode (d_dict x') i = Some s) /\
-  next_id (d_dict x) <= next_id (d_dict x') /\ next_id (d_dict x') <= next_id (d_dict x) + 1.
+  next_id (d_dict x) <= next_id (d_dict x') /\ next_id (d_dict x') <= next_id (d_dict x) + 1 /\ d_qts x' = d_qts x.
 Proof.
   intros x s x' i H [A B] Hn. unfold db_encode, dict_encode in H.
   destruct (assoc_s s (s2i (d_dict x))) as [j|] eqn:E.
   - inversion H; subst x' i; clear H. unfold set_dict. cbn [d_dict d_qts d_quads d_pref].
-    repeat split; auto; try lia.
-    + unfold decode_any. cbn [decode_term d_dict]. pose proof (A _ _ E) as Hj. pose proof (B _ _ Hj) as Hlt.
-      unfold is_quoted. replace (QBIT <=? j) with false by (symmetry; apply N.leb_gt; lia). exact Hj.
-    + exact (A _ _ E).
-  - inversion H; subst x' i; clear H. unfold set_dict. cbn [d_dict d_qts d_quads d_pref s2i i2s next_id].
-    repeat split; auto; try lia.
-    + intros s' i' H'. cbn [s2i i2s] in *. destruct (str_eqb s' s) eqn:Es.
-      * apply str_eqb_eq in Es. subst s'. rewrite assoc_s_cons_eq in H'. inversion H'; subst i'.
-        apply assoc_n_cons_eq.
-      * apply str_eqb_neq in Es. rewrite assoc_s_cons_neq in H' by exact Es.
-        pose proof (A _ _ H') as Hi. pose proof (B _ _ Hi) as Hlt.
-        rewrite assoc_n_cons_neq by lia. exact Hi.
-    + intros i' s' H'. cbn [i2s next_id] in *. destruct (N.eq_dec i' (next_id (d_dict x))) as [Ei|Ei].
-      * subst i'. lia.
-      * rewrite assoc_n_cons_neq in H' by exact Ei. pose proof (B _ _ H'). lia.
-    + intros i' s' H'. unfold dict_decode in *. cbn [d_dict i2s] in *.
-      pose proof (B _ _ H') as Hlt. rewrite assoc_n_cons_neq by lia. exact H'.
-    + unfold decode_any. cbn [decode_term d_dict]. unfold is_quoted.
+    pose proof (A _ _ E) as Hj. pose proof (B _ _ Hj) as Hlt.
+    split; [split; assumption|]. split; [apply ext_of_grows; apply grows_same_qts; auto|].
+    split; [reflexivity|]. split; [reflexivity|]. split; [|split; [lia | split; [lia | reflexivity]]].
+    split; [|exact Hj]. unfold decode_any. cbn [decode_term d_dict].
+    unfold is_quoted. replace (QBIT <=? j) with false by (symmetry; apply N.leb_gt; lia). exact Hj.
+  - inversion H; subst x' i; clear H. unfold set_dict.
+    set (x' := mkDb (mkDict ((s, next_id (d_dict x)) :: s2i (d_dict x)) ((next_id (d_dict x), s) :: i2s (d_dict x)) (next_id (d_dict x) + 1))
+                    (d_qts x) (d_quads x) (d_pref x)).
+    assert (D : forall i' s', dict_decode (d_dict x) i' = Some s' -> dict_decode (d_dict x') i' = Some s').
+    { intros i' s' H'. unfold dict_decode in *. cbn [x' d_dict i2s] in *.
+      pose proof (B _ _ H') as Hlt. rewrite assoc_n_cons_neq by lia. exact H'. }
+    split.
+    { split.
+      - intros s' i' H'. cbn [x' d_dict s2i i2s] in *. destruct (str_eqb s' s) eqn:Es.
+        + apply str_eqb_eq in Es. subst s'. rewrite assoc_s_cons_eq in H'. inversion H'; subst i'. apply assoc_n_cons_eq.
+        + apply str_eqb_neq in Es. rewrite assoc_s_cons_neq in H' by exact Es.
+          pose proof (A _ _ H') as Hi. pose proof (B _ _ Hi) as Hlt. rewrite assoc_n_cons_neq by lia. exact Hi.
+      - intros i' s' H'. cbn [x' d_dict i2s next_id] in *. destruct (N.eq_dec i' (next_id (d_dict x))) as [Ei|Ei].
+        + subst i'. lia.
+        + rewrite assoc_n_cons_neq in H' by exact Ei. pose proof (B _ _ H'). lia. }
+    split; [apply ext_of_grows; apply grows_same_qts; [reflexivity | exact D]|].
+    split; [reflexivity|]. split; [reflexivity|].
+    split; [|cbn [x' d_dict next_id d_qts]; split; [lia | split; [lia | reflexivity]]].
+    split.
+    + unfold decode_any. cbn [decode_term]. unfold is_quoted.
       replace (QBIT <=? next_id (d_dict x)) with false by (symmetry; apply N.leb_gt; lia).
-      unfold dict_decode. cbn [i2s]. apply assoc_n_cons_eq.
-    + unfold dict_decode. cbn [i2s]. apply assoc_n_cons_eq.
+      unfold dict_decode. cbn [x' d_dict i2s]. apply assoc_n_cons_eq.
+    + unfold dict_decode. cbn [x' d_dict i2s]. apply assoc_n_cons_eq.
 Qed.
 
 (* ---- DatasetIndex::insert_quad ---- *)
@@ -170,11 +191,11 @@ Proof.
   destruct (db_encode x2 o) as [x3' i3] eqn:E3.
   inversion H; subst x3' i1 i2 i3; clear H.
   assert (N1 : next_id (d_dict x) < QBIT) by lia.
-  destruct (db_encode_spec _ _ _ _ E1 Hd N1) as (D1 & X1 & Q1 & P1 & [C1 _] & L1 & U1).
+  destruct (db_encode_spec _ _ _ _ E1 Hd N1) as (D1 & X1 & Q1 & P1 & [C1 _] & L1 & U1 & T1).
   assert (N2 : next_id (d_dict x1) < QBIT) by lia.
-  destruct (db_encode_spec _ _ _ _ E2 D1 N2) as (D2 & X2 & Q2 & P2 & [C2 _] & L2 & U2).
+  destruct (db_encode_spec _ _ _ _ E2 D1 N2) as (D2 & X2 & Q2 & P2 & [C2 _] & L2 & U2 & T2).
   assert (N3 : next_id (d_dict x2) < QBIT) by lia.
-  destruct (db_encode_spec _ _ _ _ E3 D2 N3) as (D3 & X3 & Q3 & P3 & [C3 _] & L3 & U3).
+  destruct (db_encode_spec _ _ _ _ E3 D2 N3) as (D3 & X3 & Q3 & P3 & [C3 _] & L3 & U3 & T3).
   split; [exact D3|]. split; [apply (ext_trans _ _ _ X1 (ext_trans _ _ _ X2 X3))|].
   split; [congruence|]. split; [congruence|].
   split; [apply (decode_any_ext x1 x3); [apply (ext_trans _ _ _ X2 X3) | exact C1]|].
@@ -209,7 +230,7 @@ Proof.
   destruct g as [gs|].
   - destruct (db_encode x3 gs) as [x4 gi] eqn:E4.
     assert (N4 : next_id (d_dict x3) < QBIT) by lia.
-    destruct (db_encode_spec _ _ _ _ E4 D3 N4) as (D4 & X4 & Q4 & P4 & [Cg Cg'] & L4 & U4).
+    destruct (db_encode_spec _ _ _ _ E4 D3 N4) as (D4 & X4 & Q4 & P4 & [Cg Cg'] & L4 & U4 & T4).
     assert (X : ext x x4) by (apply (ext_trans _ _ _ X3 X4)).
     assert (Qx : d_quads x4 = d_quads x) by congruence.
     destruct (den_ext x x4 X Qx Hq) as [Dn Fq].
